@@ -41,7 +41,9 @@ BoundedErrorBody(e) == m'.errpath => e.consumed <= ErrLimit + 1
 \* C01, third sentence, on the logged values themselves: a complete read that ends in a clean
 \* end-of-stream delivered what the reader's descriptor says
 CleanEOFIsConsistent(e) ==
-  (call.name = "ReadAll" /\ e.ok /\ rd.verify) => (e.n = rd.size /\ e.cont = rd.cont)
+  /\ (call.name = "ReadAll" /\ e.ok /\ rd.verify) => (e.n = rd.size /\ e.cont = rd.cont)
+  \* ... and, for any read (range reads included), not fewer bytes than the framed response announced
+  /\ (call.name = "ReadAll" /\ e.ok /\ rd.framed /\ rd.acl >= 0) => e.n >= rd.acl
 
 TInit == l = 2 /\ Init0(0)
 TNext ==
